@@ -11,6 +11,7 @@ structure St where
   slots : Array (Option Nat) := #[]
   fmt : List (UInt64 × Bytes) := []      -- %.17g texts reported on the op lines
   sd : List (Bytes × UInt64) := []       -- number token → bits (for re-parsing)
+  cyc : Bool := true                     -- repair F38 (cycle check) present in the code under test
 
 def parseBits (s : String) : Option UInt64 :=
   if s.length != 16 then none else
@@ -90,7 +91,7 @@ def scalarOf (st : St) (kind : String) (args : List String) : Option (Scalar × 
 def pushSlot (st : St) (p : Option Nat) : St := { st with slots := st.slots.push p }
 
 def doOp (st : St) (op : Op) : St × Ret :=
-  let (h, r) := st.heap.step true op
+  let (h, r) := st.heap.step true st.cyc op
   ({ st with heap := h }, r)
 
 def retStr : Ret → String
@@ -113,7 +114,7 @@ def valueOf (st : St) (p : Option Nat) : Option JVal :=
 
 def step (st : St) (line : String) : St × String :=
   match words line with
-  | ["#case"] => ({}, "#case")
+  | ["#case"] => ({ cyc := st.cyc }, "#case")
   | "list" :: [] => let (st', r) := doOp st .newList
                     match r with | .ptr p => (pushSlot st' p, retStr r) | _ => (st, "bad-op")
   | "dict" :: [] => let (st', r) := doOp st .newDict
@@ -165,7 +166,7 @@ def step (st : St) (line : String) : St × String :=
        | some jv =>
          let base := st1.heap.cells.length
          let (ops, root, _) := buildOps jv base
-         let (h, _) := st1.heap.run true (ops ++ [.seal (some root)])
+         let (h, _) := st1.heap.run true st1.cyc (ops ++ [.seal (some root)])
          (pushSlot { st1 with heap := h } (some root), "ptr 1"))
     | _, _ => (st, "bad-op")
   | kind :: args =>
@@ -194,4 +195,5 @@ def step (st : St) (line : String) : St × String :=
       | none => (st, "bad-op")
   | [] => (st, "bad-op")
 
-def main : IO Unit := runDriver ({} : St) step
+def main (args : List String) : IO Unit :=
+  runDriver ({ cyc := !args.contains "--no-cycle-check" } : St) step
